@@ -10,7 +10,10 @@ import (
 	"time"
 
 	"github.com/libp2p/go-libp2p/core/crypto"
+	"github.com/libp2p/go-libp2p/p2p/host/eventbus"
 
+	ipfslog "berty.tech/go-ipfs-log"
+	"berty.tech/go-orbit-db/stores/operation"
 	"berty.tech/weshnet/v2/internal/verifkit"
 	"berty.tech/weshnet/v2/internal/verifsched"
 	"berty.tech/weshnet/v2/pkg/protocoltypes"
@@ -51,10 +54,24 @@ func c05bSettle(devs []*c05Dev) error {
 			}
 		}
 		handled := c05bHandled()
-		sig := fmt.Sprintf("%d/%d", total, handled)
-		if handled >= total && sig == last {
+		// an entry that reached a device before it activated the group is taken up by the activation's own replay, not by
+		// the watcher: the handler counter cannot be compared with the logs. Quiescent = nobody is inside the handler or
+		// inside an activation task, and neither logs nor counters moved for 25 samples.
+		busy := false
+		for _, g := range verifsched.Goroutines() {
+			for _, f := range g.Frames {
+				// (the watcher loop itself is a closure of ActivateGroupContext and lives for ever: only the working
+				// functions count)
+				if strings.Contains(f, "handleGroupMetadataEvent") || strings.Contains(f, "fillMessageKeysHolderUsingPreviousData") ||
+					strings.Contains(f, "sendSecretsToExistingMembers") {
+					busy = true
+				}
+			}
+		}
+		sig := fmt.Sprintf("%d/%d/%d", total, handled, verifsched.TotalHits())
+		if !busy && sig == last {
 			stable++
-			if stable >= 3 {
+			if stable >= 25 {
 				return nil
 			}
 		} else {
@@ -67,6 +84,33 @@ func c05bSettle(devs []*c05Dev) error {
 		case <-time.After(2 * time.Millisecond):
 		}
 	}
+}
+
+// c05bDeliverEmitted delivers entries to a device's metadata log and returns once that device's store has announced every
+// entry the delivery added on its event bus. Without this a device that activates right after a delivery can still
+// receive those entries through the watcher it subscribes first thing; with it, the only way to learn of them is the
+// activation's own pass over the log.
+func c05bDeliverEmitted(ctx context.Context, dst *c05Dev, what []ipfslog.Entry) error {
+	ms := dst.gc.MetadataStore()
+	sub, err := ms.EventBus().Subscribe(new(*protocoltypes.GroupMetadataEvent), eventbus.BufSize(512))
+	if err != nil {
+		return err
+	}
+	defer sub.Close()
+	before := ms.OpLog().Len()
+	if err := vDeliver(ctx, ms, what); err != nil {
+		return err
+	}
+	want := ms.OpLog().Len() - before
+	watchdog := time.After(30 * time.Second)
+	for got := 0; got < want; got++ {
+		select {
+		case <-sub.Out():
+		case <-watchdog:
+			return fmt.Errorf("verif watchdog: the store announced %d of the %d delivered entries", got, want)
+		}
+	}
+	return nil
 }
 
 func TestVerifC05B(t *testing.T) {
@@ -149,6 +193,77 @@ func TestVerifC05B(t *testing.T) {
 			}
 			order := rng.Perm(len(devs))
 			ok := true
+			if pi == 0 && c.devices[0] == 2 && len(devs) >= 3 {
+				// directed plan "late sibling": A1 and B are active; the second device A2 of A's member has received B's
+				// log only up to B's announcements for that member - NOT B's own device entry, which B writes afterwards -
+				// and activates in that state; the rest arrives later
+				order = nil
+				a1, a2, b := devs[0], devs[1], devs[2]
+				ok = activate(a1)
+				if ok {
+					if err := vDeliver(ctx, b.gc.MetadataStore(), vHeads(a1.gc.MetadataStore())); err != nil {
+						rep.Inconclusivef("%s: deliver: %v", tag, err)
+						return
+					}
+					// B publishes its announcement for A's member BEFORE the entry that announces B's own device (the order the
+					// activation tasks of a device may produce: they run concurrently), then activates normally
+					if _, err := b.gc.MetadataStore().SendSecret(ctx, a1.gc.MemberPubKey()); err != nil {
+						rep.Inconclusivef("%s: SendSecret: %v", tag, err)
+						return
+					}
+					if _, err := b.gc.MetadataStore().AddDeviceToGroup(ctx); err != nil {
+						rep.Inconclusivef("%s: AddDeviceToGroup: %v", tag, err)
+						return
+					}
+					trace = append(trace, "write("+b.name+": announcement for the other member, then its own device entry)")
+					ok = activate(b)
+				}
+				if ok {
+					if err := c05bSettle(devs); err != nil {
+						rep.Inconclusivef("%s: %v", tag, err)
+						return
+					}
+					all := b.gc.MetadataStore().OpLog().Values().Slice()
+					cut := -1
+					for i, e := range all {
+						op, err := operation.ParseOperation(e)
+						if err != nil {
+							continue
+						}
+						if meta, ev, err := openGroupEnvelope(g, op.GetValue()); err == nil && meta.EventType == protocoltypes.EventType_EventTypeGroupMemberDeviceAdded {
+							if da, isDA := ev.(*protocoltypes.GroupMemberDeviceAdded); isDA && cut < 0 && string(da.DevicePk) == string(rawKey(b.gc.DevicePubKey())) {
+								cut = i
+							}
+						}
+					}
+					if cut > 0 {
+						if err := c05bDeliverEmitted(ctx, a2, all[cut-1:cut]); err != nil {
+							rep.Inconclusivef("%s: deliver: %v", tag, err)
+							return
+						}
+						trace = append(trace, fmt.Sprintf("sync-up-to-entry-%d-of-%d(%s<-%s) [everything before the source's own device entry]", cut, len(all), a2.name, b.name))
+						rep.Count("late_sibling_plans", 1)
+					}
+					ok = activate(a2)
+					if ok && cut > 0 {
+						// the announcement was in A2's log when it activated, and nothing announces it again: A2 must hold
+						// B's chain key as soon as its activation has settled
+						if err := c05bSettle(devs); err != nil {
+							rep.Inconclusivef("%s: %v", tag, err)
+							return
+						}
+						gpk0, _ := g.GetPubKey()
+						rep.Eval(1)
+						if !a2.r.ss.IsChainKeyKnownForDevice(ctx, gpk0, b.gc.DevicePubKey()) {
+							rep.Violate("C05/chain-key-missing-after-activation", fmt.Sprintf("%s activated with %s's announcement for its member already in its log (but not yet %s's own device entry) and does not hold %s's chain key", a2.name, b.name, b.name, b.name),
+								map[string]interface{}{"case": tag, "trace": trace})
+						}
+					}
+				}
+				for _, d := range devs[3:] {
+					ok = ok && activate(d)
+				}
+			}
 			// interleave activations with random deliveries among the active devices
 			for _, di := range order {
 				if !activate(devs[di]) {
@@ -176,7 +291,7 @@ func TestVerifC05B(t *testing.T) {
 						what = all[idx : idx+1]
 						label = fmt.Sprintf("sync-up-to-entry-%d-of-%d", idx+1, len(all))
 					}
-					if err := vDeliver(ctx, dst.gc.MetadataStore(), what); err != nil {
+					if err := c05bDeliverEmitted(ctx, dst, what); err != nil {
 						rep.Inconclusivef("%s: deliver: %v", tag, err)
 						ok = false
 						break
